@@ -12,10 +12,10 @@ git apply SEED/patch.diff || { echo "RESULT patch-does-not-apply"; exit 1; }
 S=$(cargo test --workspace --no-fail-fast --offline 2>&1 | grep -E "^test result" | awk '{p+=$4; f+=$6} END {print p" "f}')
 echo "suite-with-change: passed/failed = $S"
 cp SEED/demo.rs assert-struct/tests/seed_demo.rs
-D1=$(cargo test -p assert-struct --test seed_demo --offline 2>&1 | grep -E "^test result|error(\[|:)" | head -3 | tr '\n' ' ')
+D1=$(cargo test -p assert-struct --test seed_demo --offline 2>&1 | grep -E "^test result|^error(\[|:)|aborted|SIGABRT" | sort -r | head -3 | tr '\n' ' ')
 echo "demo-with-change: $D1"
 git checkout -q -- . 
-D2=$(cargo test -p assert-struct --test seed_demo --offline 2>&1 | grep -E "^test result|error(\[|:)" | head -3 | tr '\n' ' ')
+D2=$(cargo test -p assert-struct --test seed_demo --offline 2>&1 | grep -E "^test result|^error(\[|:)|aborted|SIGABRT" | sort -r | head -3 | tr '\n' ' ')
 echo "demo-without-change: $D2"
 git apply SEED/patch.diff
 echo "RESULT done"
